@@ -23,7 +23,7 @@ def program_for(s, pos, raw_ws=False):
                 '{"' + s + '": 1}\n1\n')
     if pos == "import":
         return ({"x.ms": "import m\nprint m.s\nprint m.f()\n",
-                 "m.ms": f"export s: str = {lit}\nexport f = fn() -> str {{ return {lit} + \"|\" }}\n"},
+                 "m.ms": f"export s: str = {lit}\nexport f: fn() -> str = fn() -> str {{ return {lit} + \"|\" }}\n"},
                 "x.ms", s + "\n" + s + "|\n")
     if pos == "dead":
         return ({"x.ms": f"k = 1\nif k == 2 {{\n\tprint {lit}\n}}\nprint \"end\"\n"}, "x.ms", "end\n")
@@ -103,7 +103,7 @@ class C04(Check):
             desc = {"generated": case[1]}
         d1 = os.path.join(d, "dump-run.txt")
         d2 = os.path.join(d, "dump-exec.txt")
-        r1 = driver.run(["run", entry, "-q"], cwd, env={"MSCRIPT_VERIF_DUMP": d1}, timeout=20)
+        r1 = driver.run(["run", entry, "-q"], cwd, env={"MSCRIPT_VERIF_DUMP": d1}, timeout=(8 if os.environ.get("VERIF_TIER_","quick")=="quick" else 30))
         if r1.timeout:
             return {"outcome": "skipped-timeout", "nontrivial": False, "tags": ["skipped-timeout"]}
         # remove what `run` wrote so that `execute` reads what `compile` writes
@@ -162,4 +162,6 @@ class C04(Check):
         for t in ["str", "ex"]:
             if not stats["tags"].get(t):
                 errs.append(f"vacuity: no case of kind {t}")
+        if stats["tags"].get("str-rejected"):
+            errs.append(f"vacuity: {stats['tags']['str-rejected']} string-literal programs were rejected by the compiler (template broken)")
         return errs
